@@ -737,6 +737,34 @@ class Ctx(object):
         self.pc.append(c if d else z3.Not(c))
         return d
 
+    def known(self, cond):
+        """True / False if the hypotheses decide `cond` (quick query, cached per path), else None"""
+        cond = _generic(cond)
+        if isinstance(cond, (bool, int, Fraction)):
+            return bool(cond)
+        if getattr(self, 'replay', False):
+            return None
+        t = z3.simplify(zbool(cond))
+        if z3.is_true(t):
+            return True
+        if z3.is_false(t):
+            return False
+        cache = self.__dict__.setdefault('_known', {})
+        k = (t.get_id(), len(self.pc), len(self.axioms))
+        if k in cache:
+            return cache[k][0]
+        hs = [h for h in self.hyps() if _is_linear(h)]     # dropping hypotheses is sound; keeps these queries in LIA/LRA
+        if not _is_linear(t):
+            cache[k] = (None, t)
+            return None
+        r = None
+        if check_sat(hs + [z3.Not(t)], 1500) == 'unsat':
+            r = True
+        elif check_sat(hs + [t], 1500) == 'unsat':
+            r = False
+        cache[k] = (r, t)
+        return r
+
     # --- obligations
     def side(self, name, cond, where=''):
         """engine generated side obligation (index in bounds, domain of sqrt/log, ...)"""
@@ -801,21 +829,81 @@ class Ctx(object):
 
     # --- sums
     def sum_term(self, n, fn, label='sum'):
-        """opaque term for  sum_{0<=i<n} fn(i)  (n symbolic).  Two sums whose summands are the same term at
-        a canonical index (and the same length) are the same opaque constant (congruence)."""
+        """opaque term for  sum_{0<=i<n} fn(i)  (n symbolic).
+        * congruence: sums whose summands are the same term at a canonical index (same length) are the same
+          opaque constant;
+        * linearity (sum_lin): factors of the summand that do not mention the index are pulled out, so
+          sum(c*g) is the term c*sum(g);
+        * sum_nonneg: if the summand is provably >= 0 pointwise, sum >= 0 is assumed (lemma schema of DESIGN 2.5)."""
+        if getattr(self, 'replay', False):
+            tot = 0
+            for i in range(int(_generic(n))):
+                tot = add(tot, fn(i))
+            return tot
         j0 = SV(z3.Int('j0!canon'))
         try:
-            body = fn(j0)
-            key = (zterm(_generic(n)).get_id(), zterm(_generic(body)).get_id())
+            body = _generic(fn(j0))
         except (Unsupported, PyRaise):
-            key = None
-        if key is not None:
-            for s in self.sums:
-                if s.get('key') == key:
-                    return s['term']
-        s = self.fresh(label)
-        self.sums.append(dict(n=n, fn=fn, term=s, key=key, keep=(body if key else None)))
-        return s
+            body = None
+        if body is None or _isnum(body):
+            if body is not None and _c(body) == 0:
+                return 0
+            if body is not None:
+                return mul(_c(body), to_real(n))        # sum of a constant
+            s = self.fresh(label)
+            self.sums.append(dict(n=n, fn=fn, term=s, key=None))
+            return s
+        bt = z3.simplify(zterm(body, True))      # canonical form: congruence up to simple arithmetic identities
+        const, varying = _split_factors(bt, j0.t)
+        varying = z3.simplify(varying)
+        ng = _generic(n)
+        nkey = ('c', int(ng)) if _isnum(ng) else zterm(ng).get_id()
+        key = (nkey, varying.get_id())
+        inner = None
+        for srec in self.sums:
+            if srec.get('key') == key:
+                inner = srec['term']
+                break
+        if inner is None:
+            # sum_ext applied automatically: a registered sum of the same length whose summand is provably equal
+            # pointwise (fresh index, quick query) is the same sum
+            for srec in self.sums:
+                if srec.get('key') is None:
+                    continue
+                if srec['key'][0] != nkey and self.known(cmp('==', srec['n'], n)) is not True:
+                    continue
+                i = self.fresh('se', 'int')
+                a_ = z3.substitute(varying, (j0.t, i.t))
+                b_ = z3.substitute(srec['keep'][1], (j0.t, i.t))
+                rng = z3.And(i.t >= 0, i.t < zterm(_generic(n)))
+                v, _m, _b, _r = discharge(self.hyps([i]) + [rng], a_ == b_, 5000, quick=True)
+                if v == 'proved':
+                    inner = srec['term']
+                    if 'lemma sum_ext applied automatically' not in self.trace:
+                        self.trace.append('lemma sum_ext applied automatically')
+                    break
+        if inner is None:
+            inner = self.fresh(label)
+            if const is None:
+                ifn = fn
+            else:
+                def ifn(i, _v=varying, _fn=fn):
+                    _fn(i)                      # instantiate lazy array facts at this index
+                    return SV(z3.substitute(_v, (j0.t, zterm(_generic(i)))))
+            self.sums.append(dict(n=n, fn=ifn, term=inner, key=key, keep=(body, varying)))
+            # sum_nonneg / sum of zeros, decided silently on a fresh index
+            i = self.fresh('sn', 'int')
+            vi = SV(z3.substitute(varying, (j0.t, i.t)))
+            fn(i)
+            hs = self.hyps([i])
+            rng = z3.And(i.t >= 0, i.t < zterm(_generic(n)))
+            v, _m, _b, _r = discharge(hs + [rng], zbool(vi >= 0), 5000, quick=True)
+            if v == 'proved':
+                self.pc.append(zbool(inner >= 0))
+                self.trace.append('lemma sum_nonneg applied automatically') if 'lemma sum_nonneg applied automatically' not in self.trace else None
+        if const is None:
+            return inner
+        return SV(const * inner.t)
 
     def find_sum(self, term):
         for s in self.sums:
@@ -853,6 +941,80 @@ class Ctx(object):
         return ok
 
 
+def _mentions(t, v):
+    seen = set()
+    stack = [t]
+    while stack:
+        x = stack.pop()
+        if x.get_id() in seen:
+            continue
+        seen.add(x.get_id())
+        if x.eq(v):
+            return True
+        stack.extend(x.children())
+    return False
+
+
+_LIN = {}
+
+
+def _is_linear(t):
+    k = t.get_id()
+    if k in _LIN:
+        return _LIN[k][0]
+    r = True
+    stack = [t]
+    seen = set()
+    while stack:
+        x = stack.pop()
+        if x.get_id() in seen:
+            continue
+        seen.add(x.get_id())
+        if z3.is_app_of(x, z3.Z3_OP_MUL):
+            if sum(1 for c in x.children() if _num(c) is None) > 1:
+                r = False
+                break
+        elif z3.is_app_of(x, z3.Z3_OP_DIV) or z3.is_app_of(x, z3.Z3_OP_IDIV) or z3.is_app_of(x, z3.Z3_OP_MOD):
+            if _num(x.arg(1)) is None:
+                r = False
+                break
+        elif z3.is_app_of(x, z3.Z3_OP_POWER):
+            r = False
+            break
+        stack.extend(x.children())
+    _LIN[k] = (r, t)
+    return r
+
+
+def _split_factors(t, j):
+    """t = const * varying with `const` free of the index j (None if nothing can be pulled out)"""
+    consts, vary = [], []
+
+    def walk(x, inv):
+        if z3.is_app_of(x, z3.Z3_OP_MUL):
+            for c in x.children():
+                walk(c, inv)
+        elif z3.is_app_of(x, z3.Z3_OP_DIV):
+            a, b = x.children()
+            walk(a, inv)
+            walk(b, not inv)
+        elif z3.is_app_of(x, z3.Z3_OP_TO_REAL) and z3.is_app_of(x.arg(0), z3.Z3_OP_MUL):
+            walk(x.arg(0), inv)
+        else:
+            (vary if _mentions(x, j) else consts).append((x if z3.is_real(x) else z3.ToReal(x), inv))
+    walk(t, False)
+    if not consts or not vary:
+        return None, t
+
+    def build(lst):
+        r = None
+        for x, inv in lst:
+            f = (z3.RealVal(1) / x) if inv else x
+            r = f if r is None else r * f
+        return r
+    return build(consts), build(vary)
+
+
 def check_sat(assertions, timeout_ms):
     s = z3.Solver()
     s.set('timeout', timeout_ms)
@@ -883,8 +1045,59 @@ def _external(smt2, timeout_ms):
     return 'unknown', ''
 
 
-def discharge(hyps, goal, timeout_ms):
+def _abstract_nl(terms):
+    """replace every maximal nonlinear arithmetic sub-term by a fresh real constant (same term -> same constant).
+    The abstraction only forgets facts, so `unsat` of the abstracted query implies `unsat` of the original."""
+    cache = {}
+    fresh = {}
+
+    def nl(x):
+        if z3.is_app_of(x, z3.Z3_OP_MUL):
+            return sum(1 for c in x.children() if _num(c) is None) > 1
+        if z3.is_app_of(x, z3.Z3_OP_DIV) or z3.is_app_of(x, z3.Z3_OP_IDIV) or z3.is_app_of(x, z3.Z3_OP_MOD):
+            return _num(x.arg(1)) is None
+        return z3.is_app_of(x, z3.Z3_OP_POWER)
+
+    def go(x):
+        k = x.get_id()
+        if k in cache:
+            return cache[k][0]
+        if z3.is_quantifier(x) or z3.is_var(x):
+            r = x
+        elif nl(x):
+            # abstract the children first so that equal sub-terms stay equal, then name the product
+            ch = [go(c) for c in x.children()]
+            y = x.decl()(*ch)
+            kk = y.get_id()
+            if kk not in fresh:
+                fresh[kk] = (z3.Real('nl!%d' % len(fresh)) if z3.is_real(x) else z3.Int('nl!%d' % len(fresh)), y)
+            r = fresh[kk][0]
+        elif z3.is_app(x) and x.num_args() > 0:
+            ch = [go(c) for c in x.children()]
+            r = x.decl()(*ch)
+        else:
+            r = x
+        cache[k] = (r, x)
+        return r
+    keep = [z3.simplify(t) for t in terms]      # keep alive: ast ids are only unique among live terms
+    out = [go(t) for t in keep]
+    return out, len(fresh)
+
+
+def discharge(hyps, goal, timeout_ms, quick=False):
     """returns verdict ('proved'|'refuted'|'undecided'), model or None, backend, reason"""
+    # (A) nonlinear sub-terms abstracted to fresh constants: linear + UF, fast and stable; only `unsat` is used
+    try:
+        ab, nfresh = _abstract_nl(list(hyps) + [z3.Not(goal)])
+        if nfresh:
+            sa = z3.Solver()
+            sa.set('timeout', min(timeout_ms, 6000))
+            for h in ab:
+                sa.add(h)
+            if sa.check() == z3.unsat:
+                return 'proved', None, 'z3-' + z3.get_version_string() + ' (nonlinear terms abstracted)', ''
+    except z3.Z3Exception:
+        pass
     s = z3.Solver()
     s.set('timeout', timeout_ms)
     for h in hyps:
@@ -896,6 +1109,8 @@ def discharge(hyps, goal, timeout_ms):
     if r == z3.sat:
         return 'refuted', s.model(), 'z3-' + z3.get_version_string(), ''
     reason = s.reason_unknown()
+    if quick:
+        return 'undecided', None, 'z3', reason
     # second attempt: tactic-based (nlsat / qfnra)
     try:
         t = z3.Then('simplify', 'solve-eqs', 'qfnra-nlsat')
